@@ -61,7 +61,8 @@ impl Prop for C11 {
         gcfg.max_stanzas = 4;
         gcfg.max_stmts = 5;
         gcfg.fault_pct = 15;
-        gcfg.print = false;
+        // `print` arguments are evaluated (and polled) like any other expression
+        gcfg.print = rng.chance(1, 2);
         gcfg.scan_bias = 2;
         let case = build_case(rng, &gcfg, 10, 10, 6);
         let tree = parse_python(&case.source);
@@ -246,6 +247,9 @@ impl Prop for C11 {
             }
         }
         out.feat("programs");
+        if case.text.contains("print ") {
+            out.feat("programs_with_print_statements");
+        }
         out.nontrivial(case_hash(&case.text, &case.source, &case.prog.globals));
         if out.want_sample() {
             out.sample(cj());
